@@ -136,6 +136,14 @@ def build(tier, seed):
                                  "none or 0..%d, api %s" % (keys, nrows, nrows + 1, api),
                                  budget_s=300 if tier == "quick" else 1200, per_path_timeout=60, replay=rp,
                                  functions=FUNCS, stubs=STUBS))
+    from props.c14 import make_delimited_write
+    mkw, rpw = make_delimited_write(3, (2, 2, 2), False, 1, True)
+    queries.append(Query("C07/writer-header/write_row-then-write_rows", "writer-header", mkw,
+                         "Writer under a CID with Header 1: the first row written is the header (not validated), every later "
+                         "row is validated whether it goes through write_row() or a later write_rows() call; 3 rows, cells "
+                         "symbolic (len<=2)", budget_s=300, replay=rpw, functions=FUNCS + ("cutplace.validio.Writer.write_row",
+                                                                                          "cutplace.validio.Writer.write_rows"),
+                         stubs=("S-CSVW _compat.csv_writer -> recorder", "S-FMT")))
     mk, rp = make_until()
     queries.append(Query("C07/until-option", "until", mk, "--until value n: every integer", budget_s=120,
                          expect=("exit2", "all", "zero", "some"), replay=rp, functions=FUNCS,
